@@ -38,6 +38,10 @@ static rc::Gen<Op> c05_op()
 	            static const char *bad[] = {"{\"id\":1,\"method\":\"inf", "}{", "nul", "[1,2", "\"just a string\"", "12", "{\"id\":1,\"method\":\"info\"},"};
 	            o.s = bad[which % 6]; return o; }, conn, rng(0, 6), jn)},
 	    {3, wsframe_gen(conn)},
+	    // a peer with unsent buffered output: it stops reading, its responses fill the daemon's write buffer, and then one more frame
+	    // (a response, or the pong for a ping) cannot be queued - the daemon drops the connection from inside its send path
+	    // (d = 1: expanded by c05_gen)
+	    {2, op_gen(WPLAN, rc::gen::element<int>(1, 1, 2, 0), rng(0, 3), rng(28, 36), zero(), rc::gen::just(1), zero(), nojoin())},
 	});
 }
 
@@ -51,7 +55,17 @@ static rc::Gen<Scenario> c05_gen()
 		{ Op o; o.kind = FETCH; o.conn = 0; o.a = 0; o.b = 0; sc.ops.push_back(o); }
 		{ Op o; o.kind = ADD; o.conn = 1; o.a = 0; o.b = 1; sc.ops.push_back(o); }
 		{ Op o; o.kind = ADD; o.conn = 1; o.a = 1; o.b = -1; sc.ops.push_back(o); }
-		for (auto &o : ops) sc.ops.push_back(o);
+		for (auto &o : ops) {
+			if (o.kind == WPLAN && o.d == 1) {
+				{ Op w; w.kind = WPLAN; w.conn = o.conn; w.v = {2}; sc.ops.push_back(w); } // the kernel takes nothing any more
+				for (int i = 0; i < o.b; i++) { Op r; r.kind = INFO; r.conn = o.conn; sc.ops.push_back(r); }
+				if (o.a == 0) { Op p; p.kind = WSFRAME; p.conn = o.conn; p.a = 9; p.b = 3; p.s = std::string(125, 'p'); sc.ops.push_back(p); }
+				if (o.a == 1) { Op p; p.kind = WSFRAME; p.conn = o.conn; p.a = 9; p.b = 3; p.s = "x"; sc.ops.push_back(p); }
+				for (int i = 0; i < 4; i++) { Op r; r.kind = INFO; r.conn = o.conn; sc.ops.push_back(r); }
+				continue;
+			}
+			sc.ops.push_back(o);
+		}
 		sc.order_seed = order_seed; sc.end = end;
 		return sc;
 	}, rc::gen::resize(4, rc::gen::container<std::vector<int>>(rng(0, 3))), rc::gen::container<std::vector<Op>>(c05_op()), rng(0, 4), rng(0, 2));
